@@ -17,16 +17,16 @@ LEVEL_TEXT = ('all combinations of link target kind, absolute/relative target te
               'must have moved the link itself (same readlink) and restore must recreate it')
 LEVEL_NOTE = 'trusted: CPython/shutil, tmpfs, shim mount rules; the own mtime of a symlink is not compared (shutil.move recreates links)'
 RULE = ('product of target kind (file, dir, nothing, link->file, link->dir, other-volume file, other-volume dir, mount point, the working directory of the process, its parent) x target text '
-        '(abs, rel) x slashes (0-3) x reach (direct, via linked parent) x placement (home volume, other volume, other volume with blocked trash dirs + home fallback = cross-device move); plus one run naming {target then link, link then target, two links to the same target}; the link restored plainly and with --overwrite over a regular file; a same-named regular file is trashed before the link is restored; non-trivial = '
+        '(abs, rel) x slashes (0-3) x reach (direct, via linked parent, absolute path through a symlinked grandparent) x placement (home volume, other volume, other volume with blocked trash dirs + home fallback = cross-device move); plus one run naming {target then link, link then target, two links to the same target}; the link restored plainly and with --overwrite over a regular file; a same-named regular file is trashed before the link is restored; non-trivial = '
         'the argument passed the existence screening; distinct = outcome class x all dimensions')
 TARGETS = ['file', 'dir', 'nothing', 'chain-file', 'chain-dir', 'xvol-file', 'xvol-dir', 'mount-point', 'cwd', 'ancestor']
 FORMS = ['abs', 'rel']
-REACH = ['direct', 'linked-parent']
+REACH = ['direct', 'linked-parent', 'abs-linked-grandparent']
 PLACE = ['home', 'vol', 'vol-fallback']
 
 
 def dimensions(tier):
-    return {'target': len(TARGETS), 'form': 2, 'slashes': 4, 'reach': 2, 'placement': 3}
+    return {'target': len(TARGETS), 'form': 2, 'slashes': 4, 'reach': 3, 'placement': 3}
 
 
 def cases(tier):
@@ -82,7 +82,8 @@ def run_case(c):
         text = abs_t
     W.link(B + '/real/lnk', text)
     E = B + '/real/lnk'
-    arg = ('real/lnk' if c['reach'] == 'direct' else 'lp/lnk') + '/' * c['slashes']
+    W.link(B.rsplit('/', 1)[0] + '/galias', B)          # <parent of B>/galias -> B : an absolute spelling through it has a symlink two levels above the link
+    arg = {'direct': 'real/lnk', 'linked-parent': 'lp/lnk', 'abs-linked-grandparent': B.rsplit('/', 1)[0] + '/galias/real/lnk'}[c['reach']] + '/' * c['slashes']
     if c.get('with'):
         return run_with_target(c, W, B, E, abs_t, putopts, putenv)
     with cell.Sandbox(W.spec()) as sb:
